@@ -115,6 +115,34 @@ def run(tier):
                 sc.stocktake = (len(scs) % 2 == 1)        # every second one: a validity scan between the requests
                 if sc.stocktake: sc.name += ", a validity scan between the requests"
                 sc.write_files(); scs.append(sc)
+    # update SESSIONS generated by TLC (MC_DeltaSession): up to 2 (thorough 3) disturbed steps - a damaged or interrupted
+    # response followed by something the client does before the next request (a validity scan, the local source copied
+    # again, zck_clear_error) - on one target context and one download handle; then well-formed responses until nothing
+    # is missing.  Every event is judged by the Delta contract and the session must end with B
+    rs = common.tlc("MC_DeltaSession", "MC_DeltaSession.cfg" if tier != "thorough" else common.cfg_variant("MC_DeltaSession.cfg", wd, MaxSteps=3), workers=2, timeout=600)
+    ck.require_ok("MC_DeltaSession", rs); ck.add_tlc("MC_DeltaSession (session generator)", rs, "5 response kinds x 4 client steps, up to %d disturbed steps" % (2 if tier != "thorough" else 3))
+    sess = common.tlc_printed_json(rs, "BEH")
+    if len(sess) < 400:
+        raise Broken("MC_DeltaSession printed only %d sessions" % len(sess))
+    ROPT = {"good": "", "cfirst": "corrupt=0", "clast": "corrupt=last", "stopmid": "stop=mid", "stopend": "stop=end"}
+    cbig = [b""] + [corpus.rand(rnd, n) for n in (40010, 300, 70012, 500, 33000, 32768)]
+    cbigA = [b""] + [cbig[2], cbig[4]]
+    Bbig = ref.build_file(cbig, comp_type=0, hash_type=1, chunk_hash_type=3)[0]; Abig = ref.build_file(cbigA, comp_type=0, hash_type=1, chunk_hash_type=3)[0]
+    nsess = 0
+    for si, hs in enumerate(sess):
+        for (Bs, As, tag) in ((B4, A4, "one-byte chunks"), (B2, A2, "alternating"), (Bbig, Abig, "multi-block chunks")):
+            if tag == "multi-block chunks" and si % (5 if tier == "quick" else 2) != 0:
+                continue
+            if tier == "quick" and tag == "alternating" and si % 3 != 1:
+                continue
+            limit = (-1, 2, 1)[(si + len(tag)) % 3]
+            sc = delta.Scenario("p%d" % len(scs), wd, Bs, b"", sources=[As], limit=limit, frag=(0, 7, 16384)[si % 3], rounds=len(hs) + 16,
+                                round_opts={r: ROPT[st["resp"]] for r, st in enumerate(hs)},
+                                name="session on %s, limit %d: %s" % (tag, limit, "; ".join("%s then %s" % (st["resp"], st["then"]) for st in hs)))
+            sc.between = {r: st["then"] for r, st in enumerate(hs)}
+            sc.must = True
+            sc.write_files(); scs.append(sc); nsess += 1
+    ck.extra["update_sessions"] = nsess
     nproc = 12
     parts = ["".join(s.script() for s in scs[i::nproc]) for i in range(nproc)]
     evs = [e for part in common.run_driver_parallel(parts, "plain", timeout=2400) for e in part]
